@@ -23,64 +23,64 @@ var intrinsicTab map[string]intrinsicFn
 
 func init() {
 	intrinsicTab = map[string]intrinsicFn{
-		"math/big.NewInt":              bigNewInt,
-		"(*math/big.Int).SetBytes":     bigSetBytes,
-		"(*math/big.Int).Bytes":        bigBytes,
-		"(*math/big.Int).FillBytes":    bigFillBytes,
-		"(*math/big.Int).SetInt64":     bigSetInt64,
-		"(*math/big.Int).SetUint64":    bigSetUint64,
-		"(*math/big.Int).Set":          bigSet,
-		"(*math/big.Int).Int64":        bigInt64,
-		"(*math/big.Int).Uint64":       bigInt64,
-		"(*math/big.Int).IsInt64":      bigIsInt64,
-		"(*math/big.Int).IsUint64":     bigIsUint64,
-		"(*math/big.Int).Sign":         bigSign,
-		"(*math/big.Int).Cmp":          bigCmp,
-		"(*math/big.Int).CmpAbs":       bigCmpAbs,
-		"(*math/big.Int).BitLen":       bigBitLen,
-		"(*math/big.Int).Bit":          bigBit,
-		"(*math/big.Int).Add":          bigArith("add"),
-		"(*math/big.Int).Sub":          bigArith("sub"),
-		"(*math/big.Int).Mul":          bigArith("mul"),
-		"(*math/big.Int).Quo":          bigArith("quo"),
-		"(*math/big.Int).Div":          bigArith("quo"),
-		"(*math/big.Int).Rem":          bigArith("rem"),
-		"(*math/big.Int).Mod":          bigArith("rem"),
-		"(*math/big.Int).And":          bigArith("and"),
-		"(*math/big.Int).Or":           bigArith("or"),
-		"(*math/big.Int).Xor":          bigArith("xor"),
-		"(*math/big.Int).AndNot":       bigArith("andnot"),
-		"(*math/big.Int).Lsh":          bigShift(true),
-		"(*math/big.Int).Rsh":          bigShift(false),
-		"(*math/big.Int).Neg":          bigNeg,
-		"(*math/big.Int).Abs":          bigAbs,
-		"crypto/sha256.New":            sha256New,
-		"crypto/sha256.Sum256":         sha256Sum256,
-		"strings.Join":                 stringsJoin,
-		"strings.Split":                stringsSplit,
-		"strings.Fields":               stringsFields,
-		"strings.Contains":             stringsContains,
-		"strings.TrimSpace":            stringsConcrete1(strings.TrimSpace),
-		"strings.ToLower":              stringsConcrete1(strings.ToLower),
-		"strings.ToUpper":              stringsConcrete1(strings.ToUpper),
-		"strings.HasPrefix":            func(x *Exec, fn *ssa.Function, a []Value) Value { return x.strAffix(a[0], a[1], false) },
-		"strings.HasSuffix":            func(x *Exec, fn *ssa.Function, a []Value) Value { return x.strAffix(a[0], a[1], true) },
-		"strings.ReplaceAll":           stringsReplaceAll,
-		"strings.Repeat":               stringsRepeat,
-		"strconv.FormatInt":            strconvFormatInt,
-		"strconv.Itoa":                 strconvItoa,
-		"fmt.Errorf":                   fmtErrorf,
-		"fmt.Sprintf":                  fmtSprintf,
-		"fmt.Sprint":                   fmtSprint,
-		"errors.Is":                    errorsIs,
-		"errors.Unwrap":                errorsUnwrap,
-		"(*sync.Once).Do":              onceDo,
-		"(*sync.Mutex).Lock":           syncNop("lock"),
-		"(*sync.Mutex).Unlock":         syncNop("unlock"),
-		"(*sync.RWMutex).Lock":         syncNop("lock"),
-		"(*sync.RWMutex).Unlock":       syncNop("unlock"),
-		"(*sync.RWMutex).RLock":        syncNop("rlock"),
-		"(*sync.RWMutex).RUnlock":      syncNop("runlock"),
+		"math/big.NewInt":                              bigNewInt,
+		"(*math/big.Int).SetBytes":                     bigSetBytes,
+		"(*math/big.Int).Bytes":                        bigBytes,
+		"(*math/big.Int).FillBytes":                    bigFillBytes,
+		"(*math/big.Int).SetInt64":                     bigSetInt64,
+		"(*math/big.Int).SetUint64":                    bigSetUint64,
+		"(*math/big.Int).Set":                          bigSet,
+		"(*math/big.Int).Int64":                        bigInt64,
+		"(*math/big.Int).Uint64":                       bigInt64,
+		"(*math/big.Int).IsInt64":                      bigIsInt64,
+		"(*math/big.Int).IsUint64":                     bigIsUint64,
+		"(*math/big.Int).Sign":                         bigSign,
+		"(*math/big.Int).Cmp":                          bigCmp,
+		"(*math/big.Int).CmpAbs":                       bigCmpAbs,
+		"(*math/big.Int).BitLen":                       bigBitLen,
+		"(*math/big.Int).Bit":                          bigBit,
+		"(*math/big.Int).Add":                          bigArith("add"),
+		"(*math/big.Int).Sub":                          bigArith("sub"),
+		"(*math/big.Int).Mul":                          bigArith("mul"),
+		"(*math/big.Int).Quo":                          bigArith("quo"),
+		"(*math/big.Int).Div":                          bigArith("quo"),
+		"(*math/big.Int).Rem":                          bigArith("rem"),
+		"(*math/big.Int).Mod":                          bigArith("rem"),
+		"(*math/big.Int).And":                          bigArith("and"),
+		"(*math/big.Int).Or":                           bigArith("or"),
+		"(*math/big.Int).Xor":                          bigArith("xor"),
+		"(*math/big.Int).AndNot":                       bigArith("andnot"),
+		"(*math/big.Int).Lsh":                          bigShift(true),
+		"(*math/big.Int).Rsh":                          bigShift(false),
+		"(*math/big.Int).Neg":                          bigNeg,
+		"(*math/big.Int).Abs":                          bigAbs,
+		"crypto/sha256.New":                            sha256New,
+		"crypto/sha256.Sum256":                         sha256Sum256,
+		"strings.Join":                                 stringsJoin,
+		"strings.Split":                                stringsSplit,
+		"strings.Fields":                               stringsFields,
+		"strings.Contains":                             stringsContains,
+		"strings.TrimSpace":                            stringsConcrete1(strings.TrimSpace),
+		"strings.ToLower":                              stringsConcrete1(strings.ToLower),
+		"strings.ToUpper":                              stringsConcrete1(strings.ToUpper),
+		"strings.HasPrefix":                            func(x *Exec, fn *ssa.Function, a []Value) Value { return x.strAffix(a[0], a[1], false) },
+		"strings.HasSuffix":                            func(x *Exec, fn *ssa.Function, a []Value) Value { return x.strAffix(a[0], a[1], true) },
+		"strings.ReplaceAll":                           stringsReplaceAll,
+		"strings.Repeat":                               stringsRepeat,
+		"strconv.FormatInt":                            strconvFormatInt,
+		"strconv.Itoa":                                 strconvItoa,
+		"fmt.Errorf":                                   fmtErrorf,
+		"fmt.Sprintf":                                  fmtSprintf,
+		"fmt.Sprint":                                   fmtSprint,
+		"errors.Is":                                    errorsIs,
+		"errors.Unwrap":                                errorsUnwrap,
+		"(*sync.Once).Do":                              onceDo,
+		"(*sync.Mutex).Lock":                           syncNop("lock"),
+		"(*sync.Mutex).Unlock":                         syncNop("unlock"),
+		"(*sync.RWMutex).Lock":                         syncNop("lock"),
+		"(*sync.RWMutex).Unlock":                       syncNop("unlock"),
+		"(*sync.RWMutex).RLock":                        syncNop("rlock"),
+		"(*sync.RWMutex).RUnlock":                      syncNop("runlock"),
 		"(golang.org/x/text/unicode/norm.Form).String": normString,
 		"(golang.org/x/text/unicode/norm.Form).Bytes":  normBytes,
 		"golang.org/x/crypto/pbkdf2.Key":               pbkdf2Key,
@@ -1298,7 +1298,6 @@ func (x *Exec) randFill(sl SliceV) Value {
 func randRead(x *Exec, fn *ssa.Function, a []Value) Value {
 	return x.randFill(a[0].(SliceV))
 }
-
 
 // ---------------------------------------------------------------- sync.Pool
 
